@@ -212,6 +212,37 @@ func TestSameNewSymbolEverywhere(t *testing.T) {
 	}
 }
 
+// TestSymbolVolume: rounds in which some evaluations intern thousands of new symbols (a parsed JSON document with
+// fresh keys) while others do ordinary symbol work; tens of thousands of symbols per process, so that anything the
+// shared tables do only after they have grown (rehash, snapshot, eviction) happens while other evaluations run.
+func TestSymbolVolume(t *testing.T) {
+	in := interp.Shared()
+	vt.Check(t, vt.N(48, 1600), func(rt *rapid.T) {
+		r := Round{}
+		bulk := rapid.IntRange(2, 4).Draw(rt, "bulk programs")
+		per := rapid.IntRange(600, 1800).Draw(rt, "symbols per bulk program")
+		for b := 0; b < bulk; b++ {
+			keys := make([]string, per)
+			for i := range keys {
+				keys[i] = fmt.Sprintf("%q: %d", fresh(false), i)
+			}
+			r.Programs = append(r.Programs, "j := JSON.dec(`{"+strings.Join(keys, ", ")+"}`)\nj.keys.len")
+		}
+		for i := rapid.IntRange(2, 8).Draw(rt, "ordinary programs"); i > 0; i-- {
+			src, _, _ := genProgram(rt, nil)
+			r.Programs = append(r.Programs, src)
+		}
+		vt.Eval()
+		vt.Class("volume round")
+		vt.NonTrivial(fmt.Sprint("volume", uniq.Load()), func() any {
+			return map[string]any{"bulk_programs": bulk, "new_symbols_per_bulk_program": per, "ordinary_programs": len(r.Programs) - bulk}
+		})
+		if sig, detail := runRound(in, &r); sig != "" {
+			vt.Fail(rt, sig, detail, r)
+		}
+	})
+}
+
 // runRoundQuiet is runRound without the per-round announcement (tens of thousands of tiny rounds).
 func runRoundQuiet(in *interp.Interp, r *Round) (sig, detail string) {
 	n := len(r.Programs)
